@@ -13,7 +13,7 @@ LEVEL = "exploration"
 WORKERS = {"quick": 4, "thorough": 16}
 BUDGET = {"quick": 60, "thorough": 300}
 MIN_NONTRIVIAL = {"quick": 600, "thorough": 4000}
-REQUIRED_HOOKS = ["evaluate:I", "evaluate:C", "host-call", "override-isolation", "shared-ast", "unbound"]
+REQUIRED_HOOKS = ["evaluate:I", "evaluate:C", "host-call", "override-isolation", "shared-ast", "unbound", "random-nesting"]
 RULE = (
     "The host functions are recording proxies (name, received argument values with their classes). Product of call shape (f(a..), a.f(..), 0-3 arguments, "
     "nested in arithmetic, ||, &&, ?:, map/filter/exists_one/all/exists) x supplying style (list of callables, name->callable dict) x callable kind "
@@ -211,6 +211,89 @@ def programs():
 PROGRAMS = programs()
 
 
+# ---------------------------------------------------------------- random nestings (strict positions only: exact call counts)
+def rand_strict(rnd, depth, scope):
+    """A random int-typed program over host calls in strict positions; returns a Node."""
+    r = rnd.random()
+    if depth <= 0 or r < 0.18:
+        opts = [Node("var", "int", "x"), I(rnd.randint(0, 9))] + [Node("var", "int", v) for v in scope]
+        return rnd.choice(opts)
+    sub = lambda: rand_strict(rnd, depth - 1, scope)
+    if r < 0.30:
+        return Node("call", "int", "h1", sub())
+    if r < 0.40:
+        return Node("meth", "int", "h1", sub())
+    if r < 0.50:
+        return Node("call", "int", "h2", sub(), sub())
+    if r < 0.60:
+        return Node("meth", "int", "h2", sub(), sub())
+    if r < 0.66:
+        return Node("call", "int", "h3", sub(), sub(), sub())
+    if r < 0.70:
+        return Node("call", "int", "h0")
+    if r < 0.80:
+        return Node("bin", "int", rnd.choice("+-"), sub(), sub())
+    # a macro over a small list (repeated elements likely), reduced to an int by size() / index
+    v = "e%d" % len(scope)
+    n = rnd.randint(1, 3)
+    lst = Node("list", ("list", "int"), *[rand_strict(rnd, 0, scope) if rnd.random() < 0.5 else I(rnd.randint(0, 2)) for _ in range(n)])
+    if rnd.random() < 0.6:
+        body = rand_strict(rnd, depth - 1, scope + [v])
+        m = Node("macro", ("list", "int"), "map", lst, v, body)
+        return Node("index", "int", m, I(rnd.randrange(n)))
+    body = Node("call", "bool", "hb", rand_strict(rnd, depth - 1, scope + [v]))
+    m = Node("macro", ("list", "int"), rnd.choice(["filter"]), lst, v, body)
+    return Node("call", "int", "size", m)
+
+
+def random_case(acc, rnd, r, style, kind):
+    node = rand_strict(rnd, rnd.randint(1, 4), [])
+    names = sorted({x.a[0] for x in lang.walk(node) if x.k in ("call", "meth") and x.a[0] in MODEL and x.a[0] != "size"})
+    if not names:
+        return
+    xval = rnd.choice([0, 1, 2, 7])
+    funcs = make_functions(kind, names)
+    if style == "list" and kind in ("lambda", "callable-object"):
+        style = "dict"
+    supplied = list(funcs.values()) if style == "list" else dict(funcs)
+    env = {"x": ("int", xval)}
+    model = CountingModel(env, names)
+    try:
+        exp = ("V", model.ev(node))
+    except lang.ModelErr:
+        return  # an overflow somewhere: evaluation order decides how many calls happen
+    except lang.Unspec:
+        return
+    try:
+        src = lang.to_text(node)
+    except ValueError:
+        return
+    del hostfuncs.LOG[:]
+    out = core.api_eval(r, src, MV.cel_env(env), functions=supplied)
+    log = list(hostfuncs.LOG)
+    acc.hook("evaluate:" + r)
+    acc.hook("host-call", len(log))
+    acc.hook("random-nesting")
+    acc.evaluations += 1
+    acc.nt(["random", src, style, kind, r, xval])
+    want = sorted((n, [MV.canon_of(a) for a in args]) for n, args in model.calls)
+    got = sorted((n, args) for n, args in log)
+    what = None
+    if not agrees(out, exp):
+        what = ("outcome", f"obs={diag.oclass(out).split('@')[0]} exp=V")
+    elif len(want) != len(got):
+        what = ("call-count", "too-few" if len(got) < len(want) else "too-many")
+    elif core.jkey(want) != core.jkey(got):
+        what = ("arguments", "received-args-differ")
+    acc.cell("random-nesting", style, kind, r, "ok" if not what else what[0])
+    if what:
+        acc.violation(
+            f"{r} {kind} {style} random-nesting {what[0]} {what[1]}",
+            f"{'interpreted' if r == 'I' else 'compiled'} [{style}, {kind}] {src!r} with x={xval}: {what[0]} {what[1]}; outcome {core.jkey(out)[:100]}; {len(got)} calls received, {len(want)} expected",
+            {"label": "random", "src": src, "style": style, "kind": kind, "runner": r, "x": xval},
+        )
+
+
 def agrees(out, exp):
     if exp[0] == "E":
         return out[0] == "E"
@@ -374,6 +457,10 @@ def run(ctx):
         for xv in xs:
             run_case(acc, label, node, sites, style, kind, r, xv)
     acc.exhaustive.append(f"{len(PROGRAMS)} call shapes x 2 supplying styles x 4 callable kinds x 2 runners")
+    for _ in range(ctx.scale(2400, 160000)):
+        if ctx.expired():
+            break
+        random_case(acc, rnd, rnd.choice("IC"), rnd.choice(["list", "dict"]), rnd.choice(KINDS))
     if ctx.worker == 0:
         for r in "IC":
             override_isolation(acc, r)
@@ -392,6 +479,12 @@ def replay(case):
         unbound(acc, case["runner"])
     elif case["label"] == "shared-ast":
         shared_ast(acc, case["runner"])
+    elif case["label"] == "random":
+        names = ["h0", "h1", "h2", "h3", "hb"]
+        funcs = make_functions(case["kind"], names)
+        del hostfuncs.LOG[:]
+        out = core.api_eval(case["runner"], case["src"], MV.cel_env({"x": ("int", case["x"])}), functions=list(funcs.values()) if case["style"] == "list" else funcs)
+        return True, f"{case['src']!r}: outcome {out}; calls received {hostfuncs.LOG}"
     else:
         for label, node, sites in PROGRAMS:
             if label == case["label"]:
